@@ -41,7 +41,7 @@ BUDGET = {
 }
 CLASSES = [
     "basic", "staggered", "wide", "exhaustive", "peaky", "unbatched", "iters_edge",
-    "open_ended", "v1", "rnn", "lookup", "advance_direct", "staggered", "wide",
+    "open_ended", "v1", "rnn", "lookup", "advance_direct", "staggered", "wide", "fusion",
 ]
 # measured on the unchanged tree, seed 0, 1040 cases; a floor is a quarter of what the tier's
 # number of cases is expected to produce
@@ -190,6 +190,19 @@ def generate(rng, tier, i):
         T = rng.randint(1, 5)
         N = rng.choice([None, 1, 2])
         spec = _gen_lookup(rng, V)
+    elif cls == "fusion":
+        # the library's own state-carrying composite: two sub-models whose states travel in one dictionary
+        width = rng.randint(1, 6)
+        T = rng.randint(2, 5)
+        subs = []
+        for _ in range(2):
+            subs.append({"lm": "rnn", "V": V, "hidden": rng.choice([8, 8, 8, 5]), "seed": rng.randrange(10 ** 9),
+                         "scale": rng.choice([0.6, 1.0, 1.5]), "hseed": rng.randrange(10 ** 9)})
+        if rng.random() < 0.25:
+            subs[rng.randrange(2)] = _gen_lookup(rng, V)
+        spec = {"lm": "fusion", "V": V, "first": subs[0], "second": subs[1],
+                "beta": rng.choice([0.25, 0.5, 1.0, 2.0, -0.5]), "mixable": rng.random() < 0.5,
+                "prefixes": rng.choice([None, None, ["a/", "b/"], ["f", "s"]])}
     if spec is None:
         C = 1 if N is None else N
         spec = _spec(rng, V, kind=kind, cbias=_cbias(rng, V, max(1, C), spread=1.0))
@@ -452,6 +465,24 @@ def build_model(case, mon):
             raise _Skip()
         solo = [dict() for _ in range(n_el)]
         return lm, None, solo, OwnScorer(lm, solo), None
+    if spec["lm"] == "fusion":
+        from pydrobert.torch import modules as M
+
+        subs, init, solo = [], {}, [dict() for _ in range(n_el)]
+        pre = spec["prefixes"] or ["first.", "second."]
+        for sub, p in zip((spec["first"], spec["second"]), pre):
+            lm_s, init_s, solo_s, _, _ = build_model(dict(case, lm=sub), mon)
+            subs.append(lm_s)
+            for k, v in (init_s or {}).items():
+                init[p + k] = v
+            for n in range(n_el):
+                for k, v in solo_s[n].items():
+                    solo[n][p + k] = v
+        cls = M.MixableShallowFusionLanguageModel if spec["mixable"] else M.ExtractableShallowFusionLanguageModel
+        kw = {} if spec["prefixes"] is None else dict(first_prefix=pre[0], second_prefix=pre[1])
+        mon.ev(cls.__name__)
+        lm = cls(subs[0], subs[1], spec["beta"], **kw)
+        return lm, init, solo, OwnScorer(lm, solo), None
     raise ValueError(spec["lm"])
 
 
